@@ -4,6 +4,8 @@ package main
 // static call closure.
 
 import (
+	"go/token"
+	"go/types"
 	"sort"
 	"strings"
 
@@ -52,9 +54,9 @@ func (s litSet) list() []Lit {
 
 // FlowResult of following a value forward to a terminal.
 type FlowResult struct {
-	Reached bool
-	Guards  litSet   // literals that hold on every successful path (∪ along a path, ∩ across paths)
-	Dropped []string // call sites / places where the value is dropped although it must flow on
+	Reached   bool
+	Guards    litSet   // literals that hold on every successful path (∪ along a path, ∩ across paths)
+	Dropped   []string // call sites / places where the value is dropped although it must flow on
 	Terminals []ssa.Instruction
 }
 
@@ -67,15 +69,16 @@ func (P *Program) FlowToTerminal(v ssa.Value, isTerminal func(c ssa.CallInstruct
 }
 
 type flower struct {
-	viaFn      *ssa.Function       // returns of this function go to viaCall only
-	viaCall    ssa.CallInstruction
-	P          *Program
-	isTerminal func(c ssa.CallInstruction, arg int) bool
+	viaFn         *ssa.Function // returns of this function go to viaCall only
+	viaCall       ssa.CallInstruction
+	P             *Program
+	isTerminal    func(c ssa.CallInstruction, arg int) bool
 	storeTerminal func(st *ssa.Store) bool
-	onPath     map[ssa.Value]bool
-	dropped    []string
-	terminals  []ssa.Instruction
-	steps      int
+	onPath        map[ssa.Value]bool
+	onField       map[fieldKey]bool
+	dropped       []string
+	terminals     []ssa.Instruction
+	steps         int
 }
 
 func (f *flower) blockLits(ins ssa.Instruction) litSet {
@@ -181,6 +184,10 @@ func (f *flower) flow(v ssa.Value, acc litSet, depth int) (bool, litSet) {
 			case *ssa.FieldAddr:
 				// a field of some struct: the struct object is tainted
 				merge(f.flowContainer(addr.X, a2, depth+1))
+				// a field of a module-defined struct (accumulator object): the value is seen by every read of that field
+				if n := f.P.moduleStruct(deref(addr.X.Type())); n != nil {
+					merge(f.flowField(n, addr.Field, a2, depth+1))
+				}
 			default:
 				if cell := f.P.cellOf(addr); cell != nil {
 					merge(f.flowCell(cell, a2, depth+1))
@@ -260,6 +267,55 @@ func (f *flower) flowContainer(base ssa.Value, acc litSet, depth int) (bool, lit
 	}
 	// base is some pointer value (e.g. result of a call): follow its uses
 	return f.flow(base, acc, depth)
+}
+
+// flowField: a tainted value was stored into field #idx of module struct n; continue from every load of that field
+// (field-based: objects of the same type are not told apart).
+func (f *flower) flowField(n *types.Named, idx int, acc litSet, depth int) (bool, litSet) {
+	key := fieldKey{n, idx}
+	if f.onField[key] {
+		return false, nil
+	}
+	if f.onField == nil {
+		f.onField = map[fieldKey]bool{}
+	}
+	f.onField[key] = true
+	defer delete(f.onField, key)
+	reached := false
+	var result litSet
+	merge := func(ok bool, g litSet) {
+		if !ok {
+			return
+		}
+		if !reached {
+			reached = true
+			result = g
+		} else {
+			result = result.intersect(g)
+		}
+	}
+	for _, fn := range f.P.ModFuncs {
+		allInstrs(fn, func(b *ssa.BasicBlock, ins ssa.Instruction) {
+			switch x := ins.(type) {
+			case *ssa.FieldAddr:
+				if x.Field != idx || f.P.moduleStruct(deref(x.X.Type())) != n {
+					return
+				}
+				if refs := x.Referrers(); refs != nil {
+					for _, r := range *refs {
+						if u, ok := r.(*ssa.UnOp); ok && u.Op == token.MUL {
+							merge(f.flow(u, acc.union(f.blockLits(u)), depth+1))
+						}
+					}
+				}
+			case *ssa.Field:
+				if x.Field == idx && f.P.moduleStruct(x.X.Type()) == n {
+					merge(f.flow(x, acc.union(f.blockLits(x)), depth+1))
+				}
+			}
+		})
+	}
+	return reached, result
 }
 
 // flowCell: the local cell now holds the tainted value; continue from every read of it
